@@ -350,6 +350,28 @@ def chunk_precedence(chunk, acc):
             acc.case(("collide", small, label), outcome=str(getattr(bc, "version", bc)))
             if isinstance(bc, str) or str(bc.version) != exp:
                 acc.fail("C18/version/precedence/stamp-collides-with-index", {"kind": "precedence", "arch": "x86", "export": small, "max_index": small}, exp, bc if isinstance(bc, str) else str(bc.version))
+    # a Guardrails-protected configuration inside the image, plain and XorEncoded: artefacts come from the decoded view
+    from vmc.ref import guardrails as RG
+
+    area, _, _ = RG.protect(RC.block(RC.http_settings()), b"\x11\x22\x33\x44\x55", [(RG.G_COMPUTER, b"\xab\xcd")])
+    for arch in ("x86", "x64"):
+        for ex in (stamps[-1], None):
+            p = base_params(arch=arch, export=ex)
+            img = build(p, data=b"\x33" * 16 + area)
+            for cont, blob in (("pe", img), ("xor", xorenc.encode(img, stub=xorenc.CALL_STUB))):
+                acc.states += 1
+                acc.transitions += 1
+                bc = call(beacon.BeaconConfig.from_bytes, blob)
+                acc.case(("guardrails", arch, ex, cont), outcome=str(getattr(bc, "version", bc)))
+                if isinstance(bc, str):
+                    acc.fail("C18/version/from_bytes-failed", {"kind": "precedence", "arch": arch, "export": ex, "container": "guardrails-" + cont}, "BeaconConfig", bc)
+                    continue
+                maxidx = max(s[0] for s in RC.http_settings())
+                want = {"version": et.get(ex, "Unknown") if ex is not None else mt.get(maxidx, "Unknown"), "export": ex, "compile": p["compile"], "arch": arch}
+                obs = {"version": str(bc.version), "export": bc.pe_export_stamp, "compile": bc.pe_compile_stamp, "arch": bc.architecture}
+                if obs != want:
+                    bad = [k for k in want if want[k] != obs[k]]
+                    acc.fail("C18/version/precedence/guardrails-" + cont + "/" + "+".join(bad), {"kind": "precedence", "arch": arch, "export": ex, "container": "guardrails-" + cont}, want, obs)
     # one object, the public stamp attribute assigned after construction (as from_file does) and read in between
     for maxidx in (58, 78):
         bc = beacon.BeaconConfig(RC.block([(1, 1, b"\x00\x00"), (maxidx, 0, b"")]))
